@@ -30,7 +30,8 @@ def pysrc_str(x):
 LEAN_TYPE.update({"Y": "Load.Y", "YList": "List Load.Y", "Loader": "Unit", "NatList": "List Nat", "YMap": "List (Load.Y × Load.Y)",
                   "TopoL": "List (List Int)", "IntList": "List Int", "PyInt": "Int", "IntPair": "Int × Int", "TyName": "String",
                   "SensMap": "List ((Nat × Nat) × Rat)", "Rat": "Rat", "FlagDict": "List (Load.Y × Bool)",
-                  "FlagDict3": "List (Load.Y × Bool) × List (Load.Y × Bool) × List (Load.Y × Bool)"})
+                  "FlagDict3": "List (Load.Y × Bool) × List (Load.Y × Bool) × List (Load.Y × Bool)",
+                  "FwDict": "List ((Int × Int) × Load.Y)"})
 
 
 class TrLoad(TrAct):
@@ -210,6 +211,15 @@ class TrLoad(TrAct):
             return (s if isinstance(op, ast.In) else f"(!{s})"), "Bool"
         return super().compare(e, env)
 
+    FAIL = "false"
+
+    def ctx_name(self, c, node=None):
+        return c
+
+    def fail_text(self):
+        """what a raised exception is: `false` in a validator (`none` in a parse step), as the loop's result inside a loop"""
+        return f".ret {self.FAIL}" if getattr(self, "loop", None) is not None else self.FAIL
+
     def guarded(self, operand):
         """is an ordering comparison on this operand admissible here (inside an assert, or behind a type test)?"""
         return getattr(self, "in_assert", False) or ast.unparse(operand) in getattr(self, "typed", set())
@@ -325,12 +335,15 @@ class TrLoad(TrAct):
             if fn is not None:
                 parts = []
                 for a, (pn, pt) in zip(e.args, fn.params):
+                    if pt == "Unit":
+                        parts.append("()")                      # a label used in messages only
+                        continue
                     ao, at = self.expr(a, env)
                     if at == "PyInt" and pt == "Y":
                         ao = f"(Load.Y.int {ao})"
                     parts.append(ao)
                 args = " ".join(parts)
-                ctx = " ".join(fn.ctx)
+                ctx = " ".join(self.ctx_name(c_, e) for c_ in fn.ctx)
                 return f"({fn.lean} {ctx} {args})".replace("  ", " "), "Bool"
         return super().call(e, env)
 
@@ -351,7 +364,7 @@ class TrLoad(TrAct):
                 c = self.cond(st.test, env)
             finally:
                 self.in_assert = False
-            fail = ".ret false" if getattr(self, "loop", None) is not None else "false"
+            fail = self.fail_text()
             return f"{pad}if !{c} then\n{pad}  {fail}\n{pad}else\n" + self.block(rest, env, k, ind + 1)
         return super().block(stmts, env, k, ind)
 
@@ -377,7 +390,7 @@ class TrLoad(TrAct):
             k, kt = self.expr(value.args[0], env)
             if kt != "Y":
                 self.err(value, f"eval of {kt}")
-            fail = ".ret false" if getattr(self, "loop", None) is not None else "false"
+            fail = self.fail_text()
             env2 = dict(env)
             if isinstance(tgt, ast.Tuple) and len(tgt.elts) == 2 and all(isinstance(x, ast.Name) for x in tgt.elts):
                 a, b = tgt.elts[0].id, tgt.elts[1].id
@@ -451,7 +464,7 @@ class TrLoad(TrAct):
                 and self.w.lookup("Loader", f.attr) is not None:
             # a validator called for its exception: returning normally is the only way on
             o, _ = self.expr(c, env)
-            fail = ".ret false" if getattr(self, "loop", None) is not None else "false"
+            fail = self.fail_text()
             return f"{pad}if !{o} then\n{pad}  {fail}\n{pad}else\n" + self.block_after(nxt, env, ind)
         return super().call_stmt(c, env, nxt, ind)
 
@@ -488,7 +501,7 @@ class TrLoad(TrAct):
             pad = "  " * ind
             self.it_n = getattr(self, "it_n", 0) + 1
             nm = f"it_{self.it_n}"
-            fail = ".ret false" if getattr(self, "loop", None) is not None else "false"
+            fail = self.fail_text()
             saved = self.expr
             node = st.iter
 
@@ -637,6 +650,179 @@ class TrLoadData(TrLoad):
         return f".ret {v}" if getattr(self, "loop", None) is not None else v
 
 
+# the loader's attributes: type in the translation, and how a value of another type is stored into it
+PARSE_ATTRS = {
+    "subnets": ("NatList", {"YList": "(PyRt.natsOf {o})"}), "num_hosts": ("Nat", {}),
+    "topology": ("TopoL", {"YList": "(PyRt.topoOf {o})"}),
+    "os": ("YList", {}), "services": ("YList", {}), "processes": ("YList", {}),
+    "sensitive_hosts": ("SensMap", {}), "exploits": ("YMap", {}), "privescs": ("YMap", {}),
+    "os_scan_cost": ("Y", {}), "service_scan_cost": ("Y", {}), "subnet_scan_cost": ("Y", {}), "process_scan_cost": ("Y", {}),
+    "host_configs": ("YMap", {}), "firewall": ("FwDict", {}), "step_limit": ("Y", {}),
+}
+SECTION_COERCE = {"list": ("(listOf {o})", "YList"), "map": ("(mapOf {o})", "YMap"), "number": ("{o}", "Y"), "int": ("{o}", "Y")}
+
+
+class TrParse(TrLoad):
+    """a `_parse_*` step of `ScenarioLoader.load`: reads its section (`self.yaml_dict[KEY]`, a `KeyError` if missing),
+    validates it, stores attributes.  Translated into `Option (the attributes it stores)`: `none` = it raised.
+    Attributes are the variables `self_<name>`; the ones read before being stored are the function's parameters."""
+    FAIL = "none"
+
+    def ctx_name(self, c, node=None):
+        if c == "yaml_dict":
+            return "yaml_dict"
+        self.use_attr(c, node)
+        return f"self_{c}"
+
+    def use_attr(self, a, node=None):
+        if a not in PARSE_ATTRS:
+            self.err(node or self.node, f"attribute self.{a}")
+        if a not in self.stored and a not in self.needed:
+            self.needed.append(a)
+
+    def expr(self, e, env):
+        if isinstance(e, ast.Attribute) and isinstance(e.value, ast.Name) and e.value.id == "self" and e.attr != "yaml_dict":
+            self.use_attr(e.attr, e)
+            return f"self_{e.attr}", PARSE_ATTRS[e.attr][0]
+        if isinstance(e, ast.Call) and ast.unparse(e.func) == "sum" and len(e.args) == 1:
+            o, t = self.expr(e.args[0], env)
+            if t == "YList":
+                return f"(PyRt.sumY {o})", "Nat"
+        if isinstance(e, ast.BinOp) and isinstance(e.op, ast.Sub):
+            a, ta = self.expr(e.left, env)
+            b = self.ynum(e.right)
+            if ta == "Nat" and b is not None and b >= 0:
+                return f"({a} - {b})", "Nat"                    # natural subtraction; the sum of positive sizes plus one is >= 1
+        if isinstance(e, ast.Constant) and e.value is None:
+            return "Load.Y.null", "Y"
+        if isinstance(e, ast.Compare) and len(e.ops) == 1 and isinstance(e.ops[0], (ast.In, ast.NotIn)) \
+                and ast.unparse(e.comparators[0]) == "self.yaml_dict":
+            key = self.const_key(e.left)
+            if key is not None:
+                s_ = f"(getKey yaml_dict {pysrc_str(key)}).isSome"
+                return (f"({s_})" if isinstance(e.ops[0], ast.In) else f"(!{s_})"), "Bool"
+        return super().expr(e, env)
+
+    def section_read(self, value):
+        """`self.yaml_dict[u.KEY]` -> the section's key, or None"""
+        if isinstance(value, ast.Subscript) and ast.unparse(value.value) == "self.yaml_dict":
+            return self.const_key(value.slice)
+        return None
+
+    def store(self, attr, o, t, env, node):
+        want, conv = PARSE_ATTRS.get(attr) or self.err(node, f"attribute self.{attr}")
+        if t != want:
+            if t not in conv:
+                self.err(node, f"self.{attr} = a value of type {t}")
+            o = conv[t].format(o=o)
+        if attr not in self.stored:
+            self.stored.append(attr)
+        return f"let self_{attr} : {LEAN_TYPE[want]} := {o}\n"
+
+    def assign(self, tgt, value, env, nxt, ind):
+        pad = "  " * ind
+        key = self.section_read(value)
+        is_attr = isinstance(tgt, ast.Attribute) and isinstance(tgt.value, ast.Name) and tgt.value.id == "self"
+        if key is not None and (isinstance(tgt, ast.Name) or is_attr):
+            ty = dict(self.w.section_types).get(key) or self.err(value, f"section {key} has no declared type")
+            co, ct = SECTION_COERCE[ty]
+            tmp = "sec_"
+            env2 = dict(env)
+            if is_attr:
+                head = pad + "  " + self.store(tgt.attr, co.format(o=tmp), ct, env, tgt)
+            else:
+                env2[tgt.id] = ("val", ct)
+                head = f"{pad}  let {tgt.id} := {co.format(o=tmp)}\n"
+            return (f"{pad}match getKey yaml_dict {pysrc_str(key)} with\n{pad}| none => {self.fail_text()}\n{pad}| some {tmp} =>\n"
+                    + head + self.block_after(nxt, env2, ind))
+        if is_attr:
+            if isinstance(value, ast.Call) and ast.unparse(value) == "dict()" or isinstance(value, ast.Dict) and not value.keys:
+                want = PARSE_ATTRS[tgt.attr][0]
+                if tgt.attr not in self.stored:
+                    self.stored.append(tgt.attr)
+                return f"{pad}let self_{tgt.attr} : {LEAN_TYPE[want]} := []\n" + nxt(env)
+            o, t = self.expr(value, env)
+            return pad + self.store(tgt.attr, o, t, env, tgt) + nxt(env)
+        if isinstance(tgt, ast.Subscript) and isinstance(tgt.value, ast.Attribute) and ast.unparse(tgt.value.value) == "self" \
+                and isinstance(tgt.slice, ast.Call) and ast.unparse(tgt.slice.func) == "eval" and len(tgt.slice.args) == 1:
+            # self.<dict>[eval(key)] = v : a key outside the documented spelling raises
+            attr = tgt.value.attr
+            want = PARSE_ATTRS[attr][0]
+            setter = {"SensMap": "PyRt.sensSet", "FwDict": "PyRt.fwSet"}.get(want) or self.err(tgt, f"store into self.{attr}")
+            k, kt = self.expr(tgt.slice.args[0], env)
+            v, vt = self.expr(value, env)
+            if kt != "Y" or vt != "Y":
+                self.err(tgt, f"store of {vt} under eval of {kt}")
+            return (f"{pad}match PyRt.evalAddr {k} with\n{pad}| none => {self.fail_text()}\n{pad}| some key_ =>\n"
+                    f"{pad}  let self_{attr} := {setter} self_{attr} key_ {v}\n" + self.block_after(nxt, env, ind))
+        return super().assign(tgt, value, env, nxt, ind)
+
+    def assigned(self, stmts, env):
+        out = [v for v in super().assigned(stmts, env) if v != "self"]
+        for st in stmts:
+            for x in ast.walk(st):
+                if isinstance(x, ast.Assign):
+                    t = x.targets[0]
+                    if isinstance(t, ast.Subscript):
+                        t = t.value
+                    if isinstance(t, ast.Attribute) and isinstance(t.value, ast.Name) and t.value.id == "self" \
+                            and f"self_{t.attr}" not in out:
+                        out.append(f"self_{t.attr}")
+        return out
+
+    def call_stmt(self, c, env, nxt, ind):
+        pad = "  " * ind
+        f = c.func
+        if isinstance(f, ast.Attribute) and f.attr == "insert" and isinstance(f.value, ast.Name) and len(c.args) == 2 \
+                and self.ynum(c.args[0]) == 0 and self.ynum(c.args[1]) is not None \
+                and env.get(f.value.id, ("", ""))[1:] == ("YList",):
+            return f"{pad}let {f.value.id} := (Load.Y.int {self.ynum(c.args[1])}) :: {f.value.id}\n" + nxt(env)
+        return super().call_stmt(c, env, nxt, ind)
+
+    def for_stmt(self, st, rest, env, k, ind):
+        # a loop over a literal list of pairs is unrolled
+        if isinstance(st.iter, ast.List) and all(isinstance(x, ast.Tuple) and len(x.elts) == 2 for x in st.iter.elts) \
+                and isinstance(st.target, ast.Tuple) and len(st.target.elts) == 2:
+            a, b = st.target.elts[0].id, st.target.elts[1].id
+            items = st.iter.elts
+
+            def unroll(i, env_, ind_):
+                if i == len(items):
+                    return self.block(rest, env_, k, ind_)
+                env_i = dict(env_)
+                lab, val = items[i].elts
+                if not (isinstance(lab, ast.Constant) and isinstance(lab.value, str)):
+                    self.err(st, "label of a literal pair")
+                env_i[a] = ("strconst", lab.value)
+                o, t = self.expr(val, env_)
+                env_i[b] = ("val", t)
+                pad = "  " * ind_
+                return f"{pad}let {b} := {o}\n" + self.block(st.body, env_i, lambda e2, i2: unroll(i + 1, e2, i2), ind_)
+            return unroll(0, env, ind)
+        return super().for_stmt(st, rest, env, k, ind)
+
+    def run1(self):
+        self.loop, self.known_lists, self.known_maps, self.assert_exits = None, set(), set(), True
+        self.stored, self.needed = [], []
+        env = {"yaml_dict": ("val", "YMap")}
+        for a, (t, _) in PARSE_ATTRS.items():
+            env[f"self_{a}"] = ("val", t)
+
+        def done(e2, i2):
+            tys = [PARSE_ATTRS[a][0] for a in self.stored]
+            val = "()" if not self.stored else ", ".join(f"self_{a}" for a in self.stored)
+            return "  " * i2 + (f"some ({val})" if len(self.stored) != 1 else f"some {val}") + "\n"
+        saved = self.w.lean_ret
+        self.w.lean_ret = lambda fn_: "Option (%%RET%%)"
+        try:
+            body = self.block(self.node.body, env, done, 1)
+        finally:
+            self.w.lean_ret = saved
+        ps = " ".join(f"(self_{a} : {LEAN_TYPE[PARSE_ATTRS[a][0]]})" for a in self.needed) + " (yaml_dict : List (Load.Y × Load.Y))"
+        ret = " × ".join(LEAN_TYPE[PARSE_ATTRS[a][0]] for a in self.stored) or "Unit"
+        return ps.strip(), ret, body.replace("%%RET%%", ret)
+
+
 class TrStepLimit(TrLoad):
     """the `else` branch of `_parse_step_limit`: `step_limit = yaml_dict[STEP_LIMIT]; assert step_limit > 0`"""
     def body_of(self):
@@ -749,6 +935,88 @@ def translate_loader():
         w.local_types[("_construct_host_config", v_)] = "FlagDict"
     emit_data(mk("_construct_host_config", ["os", "services", "processes"], ["YList", "YList", "YList"], [("host_cfg", "Y")]), "FlagDict3")
     emit_data(mk("_get_host_value", ["sensitive_hosts"], ["SensMap"], [("address", "IntPair"), ("host_cfg", "Y")]), "Rat")
+    w.section_types = [(k, T_.tyname(t)) for k, t in list(loader_mod.VALID_CONFIG_KEYS.items()) + list(loader_mod.OPTIONAL_CONFIG_KEYS.items())]
+    parse_sig = {}
+
+    def emit_parse(name):
+        node = meth.get(name)
+        doc = f"`nasim/scenarios/loader.py`: `ScenarioLoader.{name}`"
+        fn = Fn("ScenarioLoader", name, f"ScenarioLoader.{name}", [], "Bool", self_ty="Loader")
+        fn.kind, fn.prop, fn.classmethod, fn.ctx, fn.ctx_ty = "method", False, False, [], []
+        try:
+            if node is None:
+                raise Untranslatable(f"{name} not found")
+            t = TrParse(w, fn, node)
+            pysrc.RAISE_EXITS = True
+            try:
+                ps, ret, body = t.run1()
+            finally:
+                pysrc.RAISE_EXITS = False
+            parse_sig[name] = (list(t.needed), list(t.stored))
+            out.append(f"/-- {doc} (`none`: it raised) -/\ndef {fn.lean} {ps} : Option ({ret}) :=\n{body}")
+        except Untranslatable as e:
+            parse_sig[name] = None
+            out.append(f"/-- UNTRANSLATABLE {doc} — {str(e).replace('-/', '- /')} -/\ndef {fn.lean} : Bool := default\n")
+
+    load_node = meth.get("load")
+    steps = []
+    try:
+        if load_node is None:
+            raise Untranslatable("load not found")
+        for st in load_node.body:
+            if isinstance(st, ast.Expr) and isinstance(st.value, ast.Constant):
+                continue                                                   # docstring
+            if isinstance(st, ast.Assign) and ast.unparse(st.targets[0]) in ("self.yaml_dict", "self.name"):
+                continue                                                   # reading the file, the scenario's name
+            if isinstance(st, ast.If) and ast.unparse(st.test) == "name is None" and not st.orelse \
+                    and all(isinstance(x, ast.Assign) and ast.unparse(x.targets[0]) == "name" for x in st.body):
+                continue
+            if isinstance(st, ast.Expr) and isinstance(st.value, ast.Call) and ast.unparse(st.value.func).startswith("self._") \
+                    and not st.value.args and not st.value.keywords:
+                steps.append(st.value.func.attr)
+                continue
+            if isinstance(st, ast.Return) and ast.unparse(st.value) == "self._construct_scenario()":
+                steps.append("RETURN")
+                continue
+            raise Untranslatable(f"load: statement `{ast.unparse(st)[:60]}`")
+        if not steps or steps[-1] != "RETURN" or "RETURN" in steps[:-1]:
+            raise Untranslatable("load: does not end in `return self._construct_scenario()`")
+        NOT_TRANSLATED = {"_parse_hosts"}
+        for name in steps[:-1]:
+            if name.startswith("_parse_") and name not in NOT_TRANSLATED:
+                emit_parse(name)
+        have = []
+        lines = []
+        ind = 1
+        for name in steps[:-1]:
+            pad = "  " * ind
+            if name == "_check_scenario_sections_valid":
+                lines.append(f"{pad}if !(ScenarioLoader._check_scenario_sections_valid yaml_dict) then false else")
+            elif name in NOT_TRANSLATED:
+                lines.append(f"{pad}-- self.{name}(): builds the Host objects from the validated configurations (not translated, raises nothing: DESIGN.md)")
+            elif name.startswith("_parse_"):
+                sig = parse_sig.get(name)
+                if sig is None:
+                    raise Untranslatable(f"load: step {name} is untranslatable")
+                needed, stored = sig
+                for a in needed:
+                    if a not in have:
+                        raise Untranslatable(f"load: {name} reads self.{a} before any step stores it")
+                args = " ".join(f"self_{a}" for a in needed)
+                pat = "_" if not stored else ("(" + ", ".join(f"self_{a}" for a in stored) + ")" if len(stored) > 1 else f"self_{stored[0]}")
+                lines.append(f"{pad}match ScenarioLoader.{name} {args} yaml_dict with".replace("  yaml_dict", " yaml_dict"))
+                lines.append(f"{pad}| none => false")
+                lines.append(f"{pad}| some {pat} =>")
+                have += stored
+                ind += 1
+            else:
+                raise Untranslatable(f"load: step {name}")
+        lines.append("  " * ind + "true")
+        out.append("/-- `nasim/scenarios/loader.py`: `ScenarioLoader.load` after the file has been read: does it return a scenario? -/\n"
+                   "def ScenarioLoader.load (yaml_dict : List (Load.Y × Load.Y)) : Bool :=\n" + "\n".join(lines) + "\n")
+    except Untranslatable as e:
+        out.append(f"/-- UNTRANSLATABLE `ScenarioLoader.load` — {str(e).replace('-/', '- /')} -/\n"
+                   "def ScenarioLoader.load (yaml_dict : List (Load.Y × Load.Y)) : Bool := default\n")
     fn = mk("step_limit_ok", [], [], [("step_limit", "Y")])
     # the test sits inside _parse_step_limit; its only variable is the value read from the file
     node = meth.get("_parse_step_limit")
